@@ -140,9 +140,11 @@ func parseLinkReferenceDefinition(block text.Reader, pc Context) (int, int) {
 		if !isNewLine {
 			return -1, -1
 		}
-		ref := NewReference(label, destination, title)
+		// the title candidate on the next line is followed by other text: it is
+		// not a title, the definition ends with the destination
+		ref := NewReference(label, destination, nil)
 		pc.AddReference(ref)
-		return startLine, endLine
+		return startLine, endLine + 1
 	}
 
 	endLine, _ = block.Position()
